@@ -24,7 +24,11 @@ type ImportMod struct {
 	Fault string `json:"fault,omitempty"`
 }
 
+// Alias, when set on an "as"/"fromas" import, is the name bound (it may be the
+// name of ANOTHER module: a global named like a module must not be mistaken
+// for that module by a later import).
 type ImportStmt struct {
+	Alias string `json:"alias,omitempty"`
 	K    string `json:"k"`           // imp mut read star-probe ident gomod code
 	Form string `json:"f,omitempty"` // plain as from fromas star
 	M    string `json:"m,omitempty"` // target module
@@ -70,6 +74,9 @@ func GenImport(r *simrt.Rand, faultsOK bool) *ImportProg {
 		}
 		if s.Form != "star" && !s.Wrap && r.Chance(1, 4) {
 			s.Wrap = true
+		}
+		if (s.Form == "as" || s.Form == "fromas") && r.Chance(1, 3) {
+			s.Alias = targets[r.Intn(len(targets))]
 		}
 		return s
 	}
@@ -194,6 +201,9 @@ func renderImportStmt(b *strings.Builder, s ImportStmt, me string) {
 	case "imp":
 		var stmt, probe string
 		alias := fmt.Sprintf("a%d", s.ID)
+		if s.Alias != "" {
+			alias = s.Alias
+		}
 		switch s.Form {
 		case "plain":
 			stmt = "import " + s.M
